@@ -180,3 +180,61 @@ class Init(Contract):
         out.update(meta_clauses(cfg, obs))
         out['input_unchanged'] = obs['input_unchanged']
         return out
+
+
+# ==========================================================================================================
+@contract
+class StoreBounded(Contract):
+    """BOUNDED stand-in for the carriers of C01 the prover does not reach: decimal strings and complex values
+    (each component), on every format with n_word <= 6, n_frac -2..n_word+2, all ten modes, every quarter-LSB
+    input over three times the representable range; constructor, call and indexed assignment."""
+    name = 'objects:Fxp.store[decimal string, complex] (bounded)'
+    layer = 4
+    native_only = True
+    props = {'*': ['C01']}
+
+    def configs(self, tier):
+        words = (1, 2, 3, 4) if tier == 'quick' else (1, 2, 3, 4, 5, 6)
+        for n in words:
+            for signed in (True, False):
+                for f in range(-2, n + 3):
+                    yield dict(signed=signed, n_word=n, n_frac=f)
+
+    def run(self, cfg, P, inp):
+        from fractions import Fraction
+        Fxp = P.Fxp
+        s, n, f = cfg['signed'], cfg['n_word'], cfg['n_frac']
+        lo, hi = range_of(s, n)
+        span = hi - lo + 1
+        bad = []; cases = 0
+        def chk(name, cond, detail):
+            nonlocal cases
+            cases += 1
+            if not cond and len(bad) < 6:
+                bad.append([name, detail])
+        for rule, mode in MODES:
+            for q in range(4 * (lo - span), 4 * (hi + span) + 1):
+                v = Fraction(q, 4) * pow2(-f)
+                want = Q(v, s, n, f, rule, mode)
+                fv = float(v)
+                text = repr(fv) if fv != int(fv) else ('%d' % int(fv) if q % 8 else repr(fv))
+                x = Fxp(text, s, n, f, rounding=rule, overflow=mode)
+                chk('decimal_string', int(x.val) == want and float(x()) == float(Fraction(want) * pow2(-f)), [rule, mode, text, int(x.val), want])
+                if q % 3 == 0:
+                    w = Fraction(-q + 1, 4) * pow2(-f)
+                    z = Fxp(complex(fv, float(w)), s, n, f, rounding=rule, overflow=mode)
+                    zc = z.val.item() if hasattr(z.val, 'item') else z.val
+                    chk('complex_components', int(zc.real) == want and int(zc.imag) == Q(w, s, n, f, rule, mode), [rule, mode, fv, float(w), zc])
+                    y = Fxp(0.0, s, n, f, rounding=rule, overflow=mode); y(text)
+                    chk('decimal_string_call', int(y.val) == want, [rule, mode, text])
+                    a = Fxp([0.0, 0.0], s, n, f, rounding=rule, overflow=mode); a[1] = text
+                    chk('decimal_string_setitem', int(a.val[1]) == want and int(a.val[0]) == 0, [rule, mode, text])
+        return {'bad': bad, 'cases': cases}
+
+    def post(self, cfg, inp, obs):
+        if obs['exc']:
+            return {}
+        failed = {b[0] for b in obs['bad']}
+        out = {k: (k not in failed) for k in ('decimal_string', 'complex_components', 'decimal_string_call', 'decimal_string_setitem')}
+        out['details'] = len(obs['bad']) == 0
+        return out
